@@ -593,6 +593,37 @@ func Families(tier string) []Family {
 		fams = append(fams, f)
 	}
 
+	// shadow: definitions in which a command declares an option and an ancestor later declares one with the same name
+	// or alias (the ancestor's takes over the shared keys when the options are handed down). Outside the
+	// specification's definitions: only run-to-run and process-to-process determinism is checked (C20)
+	{
+		f := Family{Name: "shadow"}
+		for mode := 0; mode < 2; mode++ {
+			// (a) a command with its own `help` option (alias usage); HelpCommand("help") declared last, as documented
+			c := Cfg{Mode: mode}
+			c.Nodes = []NodeCfg{rootNode(0, false), cmdNode("run", 1, 0, false, true), cmdNode("sub", 2, 0, false, true)}
+			c.Nodes[0].Fn = true
+			own := opt("bool", "help", 2, "usage")
+			own.Desc = T("the command's own help option")
+			c.Opts = []OptCfg{opt("bool", "v", 1), own, opt("string", "s", 3)}
+			c = WithHelp(c, "help")
+			f.Defs = append(f.Defs, Def{Cfg: c, NDOnly: true, Disp: true, HelpF: true, L: lim(tier, 3, 3),
+				Tokens: Ts("run", "sub", "--help", "--usage", "help", "--v", "--s=x", "x")})
+			// (b) three levels, options declared after the commands: cmd has --quiet|-q, the top level later --queue|-q
+			c2 := Cfg{Mode: mode, OptsLate: true}
+			c2.Nodes = []NodeCfg{rootNode(0, false), cmdNode("cmd", 1, 0, false, true), cmdNode("sub", 2, 0, false, true)}
+			c2.Nodes[0].Fn = true
+			c2.Opts = []OptCfg{opt("string", "queue", 1, "q"), opt("bool", "quiet", 2, "q"), opt("bool", "t", 3)}
+			c2 = WithHelp(c2, "help")
+			f.Defs = append(f.Defs, Def{Cfg: c2, NDOnly: true, Disp: true, HelpF: true, L: lim(tier, 4, 4),
+				Tokens: Ts("cmd", "sub", "-q", "--q", "fast", "--quiet", "--queue=x", "--t", "help")})
+			// the same two as completion requests
+			f.Defs = append(f.Defs, Def{Cfg: c, NDOnly: true, Comp: true, L: 3, Tokens: Ts("run", "sub", "--", "--h", "--u", "-", "")})
+			f.Defs = append(f.Defs, Def{Cfg: c2, NDOnly: true, Comp: true, L: 3, Tokens: Ts("cmd", "sub", "--", "--q", "-q", "-", "")})
+		}
+		fams = append(fams, f)
+	}
+
 	// order: at least two entries in every table a diagnostic is chosen from (C20)
 	{
 		f := Family{Name: "order"}
